@@ -827,3 +827,13 @@ impl<'a, EntryType: Entry> PathSolution<'a, EntryType> {
         Ok(Some(path))
     }
 }
+
+#[cfg(kani)]
+#[path = "/verif/kani/sciparse/c04_graph.rs"]
+mod verif_c04_graph;
+#[cfg(kani)]
+#[path = "/verif/kani/sciparse/c19_graph.rs"]
+mod verif_c19_graph;
+#[cfg(kani)]
+#[path = "/verif/kani/sciparse/c01_chain.rs"]
+mod verif_c01_chain;
